@@ -808,35 +808,55 @@ func (c *Compiler) compileUTF84ByteRange(lo, hi rune, endState StateID) []StateI
 	}
 
 	// UTF-8 4-byte encoding: 11110xxx 10xxxxxx 10xxxxxx 10xxxxxx
-	// For simplicity, use a conservative approach: match any valid 4-byte sequence in range
-	// This creates more states but is correct
-
-	loLead := byte(0xF0 | (lo >> 18))
-	hiLead := byte(0xF0 | (hi >> 18))
-
-	for leadVal := loLead; leadVal <= hiLead; leadVal++ {
-		// Determine cont1 range for this lead byte
-		var c1Lo, c1Hi byte
-		if leadVal == 0xF0 {
-			c1Lo = 0x90 // F0 requires cont1 >= 0x90
-		} else {
-			c1Lo = 0x80
-		}
-		if leadVal == 0xF4 {
-			c1Hi = 0x8F // F4 requires cont1 <= 0x8F
-		} else {
-			c1Hi = 0xBF
-		}
-
-		// Build states for each lead byte value
-		cont3 := c.builder.AddByteRange(0x80, 0xBF, endState)
-		cont2 := c.builder.AddByteRange(0x80, 0xBF, cont3)
-		cont1 := c.builder.AddByteRange(c1Lo, c1Hi, cont2)
-		lead := c.builder.AddByteRange(leadVal, leadVal, cont1)
+	// Split [lo, hi] into sub-ranges whose encodings form a product of per-position
+	// byte ranges (the classic UTF-8 range split): matching "any 4-byte sequence with a
+	// lead byte in range" would accept code points outside [lo, hi].
+	for _, seq := range utf8FourByteSequences(lo, hi) {
+		cont3 := c.builder.AddByteRange(seq[3][0], seq[3][1], endState)
+		cont2 := c.builder.AddByteRange(seq[2][0], seq[2][1], cont3)
+		cont1 := c.builder.AddByteRange(seq[1][0], seq[1][1], cont2)
+		lead := c.builder.AddByteRange(seq[0][0], seq[0][1], cont1)
 		starts = append(starts, lead)
 	}
 
 	return starts
+}
+
+// utf8FourByteSequences splits the code point range [lo, hi] (0x10000 <= lo <= hi <=
+// 0x10FFFF) into sequences of four byte ranges such that a byte string is the UTF-8
+// encoding of a code point in [lo, hi] iff it matches one of the sequences.
+func utf8FourByteSequences(lo, hi rune) [][4][2]byte {
+	var out [][4][2]byte
+	var split func(lo, hi rune)
+	split = func(lo, hi rune) {
+		for i := uint(1); i < 4; i++ {
+			m := rune(1)<<(6*i) - 1
+			if lo&^m != hi&^m {
+				if lo&m != 0 {
+					split(lo, lo|m)
+					split((lo|m)+1, hi)
+					return
+				}
+				if hi&m != m {
+					split(lo, (hi&^m)-1)
+					split(hi&^m, hi)
+					return
+				}
+			}
+		}
+		var seq [4][2]byte
+		for k := uint(0); k < 4; k++ {
+			shift := 6 * (3 - k)
+			if k == 0 {
+				seq[k] = [2]byte{byte(0xF0 | (lo >> shift)), byte(0xF0 | (hi >> shift))}
+			} else {
+				seq[k] = [2]byte{byte(0x80 | ((lo >> shift) & 0x3F)), byte(0x80 | ((hi >> shift) & 0x3F))}
+			}
+		}
+		out = append(out, seq)
+	}
+	split(lo, hi)
+	return out
 }
 
 // buildUTF8NonASCIIBranches builds NFA branches for all valid UTF-8 multi-byte sequences.
